@@ -1,35 +1,37 @@
 /-
   C08 — Durability: after any crash the node restarts intact on its last stable block.
 
-  Byte level (model `LemoModel.Wal`, tied to store/file_util.go + store/file_queue.go + the rlp
-  decoder by the `hx c08` correspondence sweep over every truncation offset):
+  Byte level (model `LemoModel.Wal`, tied to store/file_util.go + store/file_queue.go + the rlp decoder by
+  the `hx c08` correspondence sweep over every truncation offset). Two readers are modelled:
 
-    scan_encode              scan of any concatenation of encoded records returns exactly those records   (full)
-    scan_ignores_stamp       time stamp and CRC of the heads never influence the scan                     (full; this is the defect's root)
-    scan_no_fuel             the model's fuel never runs out (the loop model is total)                      (full)
-    scan_torn_total          FULL STATEMENT, FALSE on the code as it is — see below
-    scan_torn_total_partial  … holds when the cut is inside the 18-byte head or after the complete body   (_partial)
-    scan_torn_total_refuted_phantom / _error   refutations of the full statement on the faithful model    (refutation)
-    redeliver_idempotent     redelivering the write-ahead records on top of a store that already holds
-                             any of them leaves the store as a single delivery would                        (full)
+  `scan` — FileUtilsRead as it is NOW (/repo commit "fix: FileUtilsRead stops at a torn or corrupt record
+  instead of delivering a zero-filled body": io.ReadFull, short read = end of the log, CheckSum(body)
+  compared with head.Crc):
+    scan_encode              scan of any concatenation of FileUtilsEncode outputs returns exactly those records  (full)
+    scan_torn_total          FULL STATEMENT: old records ++ any prefix of the record in flight ++ any zero tail
+                             => EOF, never an error, never a phantom record.  Needs `CrcDetects` only when a
+                             zero tail is present (a 16-bit CRC cannot be proved collision free)              (full)
+    scan_torn_total_prefix   the same without zero tail, unconditional, with the exact record list            (full)
+    scan_ignores_ts, scan_no_fuel, recoverBytes_torn                                                          (full)
 
-  FULL STATEMENT that the property needs ("opens without manual repair, never a phantom record"):
+  `scanLegacy` — FileUtilsRead BEFORE that commit (plain file.Read, CRC never compared):
+    scanLegacy_encode, scanLegacy_ignores_stamp, scanLegacy_no_fuel                                          (full)
+    scanLegacy_torn_total_partial   guard: cut inside the 18-byte head or behind the body                   (_partial)
+    scanLegacy_torn_exact / scanLegacy_torn_total_iff   the exact guard                                      (full)
+    scan_torn_total_refuted, _refuted_phantom, _refuted_error, scan_torn_zero_tail_refuted,
+    recoverBytes_torn_refuted_overwrite, recoverBytes_torn_refuted_panic                                     (refutations:
+        the full statement is FALSE for the reader before the fix — phantom record with a zero-filled
+        value, or a decode error that panics FileQueue.Start)
 
-    theorem scan_torn_total (good : List Stamped) (s : Stamped) (c : Nat)
-        (hg : ∀ x ∈ good, WF x.r) (hs : WF s.r) :
-        let o := scan (encodeAll good ++ (encodeRecord s.ts s.crc s.r).take c)
-        o.stop = .eof ∧ (o.recs = good.map (·.r) ∨ o.recs = good.map (·.r) ++ [s.r])
+  Store level:
+    redeliver_idempotent, redeliver_prefix, redeliver_twice                                                  (full)
 
-  It is false: a record whose head is complete but whose body is cut is either redelivered with a
-  zero-filled body (`file.Read` leaves the zero bytes of `make` in the buffer, the CRC in the head is
-  never compared) or makes the rlp decoder fail, which aborts the scan and panics `FileQueue.Start`.
-
-  Protocol level (record granularity, model at the end of `LemoModel.Wal`):
-
+  Protocol level (record granularity, model at the end of `LemoModel.Wal`; NOT repaired in /repo):
     stable_after_crash_partial   every crash point outside the window "first record of the batch durable …
                                  SetCurrentBlock executed" recovers to the previous or to the new state     (_partial)
     stable_after_crash_refuted   inside the window the recovered store holds block h's accounts under the
                                  stable pointer h-1                                                        (refutation)
+    torn_batch_refuted           a batch torn between two records                                          (refutation)
     recover_idempotent           a crash during recovery itself is harmless (at record granularity)       (full)
 -/
 import LemoModel.Wal
@@ -44,7 +46,126 @@ theorem decode_encode_body (key val : Bytes) (h : key.length + val.length < 4294
     decodeBody (encodeBody key val) = .ok key val :=
   decodeBody_encodeBody key val h
 
-@@LIVE@@
+/-! ## byte level — the reader as it is now (`scan`: io.ReadFull + CRC check) -/
+
+/-- **scan_encode**: for every list of records as `FileUtilsEncode` writes them (any flags, keys, values,
+    time stamps) the start-up scan of the bytes `PutBatch`/`Put` appended returns exactly those records,
+    in order, ends with EOF (never an error) and leaves `Offset` at the end of the file. -/
+theorem scan_encode (ss : List Stamped) (h : ∀ s ∈ ss, Sealed s) :
+    scan (encodeAll ss) = ⟨.eof, (encodeAll ss).length, ss.map (·.r)⟩ := by
+  have hw : ∀ s ∈ ss, WF s.r := fun s hs => (h s hs).1
+  have hl := encodeAll_length_ge ss hw
+  unfold scan
+  have := scanLoop_encodeAll (step := scanStep) ss [] [] [] ((encodeAll ss).length + 1) hw
+    (fun pre post x hx => scanStep_enc pre post x (h x hx)) (by omega)
+  simp only [List.nil_append, List.append_nil, List.length_nil, Nat.zero_add] at this
+  rw [this, scanLoop_at_end stepOK_live _ _ _ _ (Nat.le_refl _)]
+
+/-- **scan_no_fuel**: the fuel of the loop model never runs out. -/
+theorem scan_no_fuel (file : Bytes) : (scan file).stop ≠ .fuel :=
+  scanLoop_no_fuel stepOK_live _ _ _ _ (by omega)
+
+/-- **scan_torn_total** — the FULL statement. After a crash in the middle of an append the file is the
+    old records, any prefix of the record in flight (cut anywhere: head, rlp headers, key, value,
+    padding), optionally followed by any number of zero bytes. The scan then ends with EOF — never an
+    error — and returns the old records, possibly plus the very record that was being written: never a
+    phantom record. `CrcDetects` (needed only when a zero tail is present, `0 < z`) is the explicit
+    assumption that the 16-bit checksum tells the zero-filled body from the intact one. -/
+theorem scan_torn_total (good : List Stamped) (s : Stamped) (c z : Nat)
+    (hg : ∀ x ∈ good, Sealed x) (hs : Sealed s) (hd : 0 < z → CrcDetects s.r) :
+    (scan (encodeAll good ++ ((encodeRecord s.ts s.crc s.r).take c ++ zeros z))).stop = .eof ∧
+      ((scan (encodeAll good ++ ((encodeRecord s.ts s.crc s.r).take c ++ zeros z))).recs = good.map (·.r) ∨
+       (scan (encodeAll good ++ ((encodeRecord s.ts s.crc s.r).take c ++ zeros z))).recs = good.map (·.r) ++ [s.r]) := by
+  have hw : ∀ x ∈ good, WF x.r := fun x hx => (hg x hx).1
+  have hl := encodeAll_length_ge good hw
+  unfold scan
+  have := scanLoop_encodeAll (step := scanStep) good [] ((encodeRecord s.ts s.crc s.r).take c ++ zeros z) []
+    ((encodeAll good ++ ((encodeRecord s.ts s.crc s.r).take c ++ zeros z)).length + 1) hw
+    (fun pre post x hx => scanStep_enc pre post x (hg x hx))
+    (by simp only [List.length_append]; omega)
+  simp only [List.nil_append, List.length_nil, Nat.zero_add] at this
+  rw [this]
+  by_cases hq : ((encodeRecord s.ts s.crc s.r).take c ++ zeros z).length ≤ 18
+  · -- at most 18 bytes behind the old records
+    have hf : (encodeAll good ++ ((encodeRecord s.ts s.crc s.r).take c ++ zeros z)).length + 1 - good.length
+        = ((encodeAll good ++ ((encodeRecord s.ts s.crc s.r).take c ++ zeros z)).length - good.length) + 1 := by
+      simp only [List.length_append]; omega
+    rw [hf, scanLoop_short stepOK_live _ _ _ _ (by simp only [List.length_append] at hq ⊢; omega)]
+    exact ⟨rfl, Or.inl rfl⟩
+  · have hf : (encodeAll good ++ ((encodeRecord s.ts s.crc s.r).take c ++ zeros z)).length + 1 - good.length
+        = ((encodeAll good ++ ((encodeRecord s.ts s.crc s.r).take c ++ zeros z)).length - good.length - 1) + 2 := by
+      simp only [List.length_append] at hq ⊢; omega
+    rw [hf]
+    rcases scanLoop_torn (encodeAll good) s hs c z _ hd (good.map (·.r)) with ⟨_, o, h⟩ | ⟨_, o, h⟩
+    · rw [h]; exact ⟨rfl, Or.inl rfl⟩
+    · rw [h]; exact ⟨rfl, Or.inr rfl⟩
+
+/-- **scan_torn_total_prefix**: the crash model of the property statement proper — the file is the old
+    records plus ANY prefix of the record in flight, no zero tail. Unconditional (no assumption about
+    the checksum: a short `io.ReadFull` already ends the log): the scan ends with EOF and returns
+    exactly the old records, plus the record in flight iff its body is complete. -/
+theorem scan_torn_total_prefix (good : List Stamped) (s : Stamped) (c : Nat)
+    (hg : ∀ x ∈ good, Sealed x) (hs : Sealed s) :
+    (scan (encodeAll good ++ (encodeRecord s.ts s.crc s.r).take c)).stop = .eof ∧
+      (scan (encodeAll good ++ (encodeRecord s.ts s.crc s.r).take c)).recs
+        = good.map (·.r) ++ (if 18 + (bodyOf s.r).length ≤ c then [s.r] else []) := by
+  have hw : ∀ x ∈ good, WF x.r := fun x hx => (hg x hx).1
+  have hl := encodeAll_length_ge good hw
+  have hz : (encodeRecord s.ts s.crc s.r).take c = (encodeRecord s.ts s.crc s.r).take c ++ zeros 0 := by
+    simp [zeros]
+  rw [hz]
+  unfold scan
+  have := scanLoop_encodeAll (step := scanStep) good [] ((encodeRecord s.ts s.crc s.r).take c ++ zeros 0) []
+    ((encodeAll good ++ ((encodeRecord s.ts s.crc s.r).take c ++ zeros 0)).length + 1) hw
+    (fun pre post x hx => scanStep_enc pre post x (hg x hx))
+    (by simp only [List.length_append]; omega)
+  simp only [List.nil_append, List.length_nil, Nat.zero_add] at this
+  rw [this]
+  have hblpos : 0 < (bodyOf s.r).length := by
+    cases hq : bodyOf s.r with
+    | nil => exact absurd hq (bodyOf_ne_nil s.r)
+    | cons a t => simp
+  by_cases hq : ((encodeRecord s.ts s.crc s.r).take c ++ zeros 0).length ≤ 18
+  · have hf : (encodeAll good ++ ((encodeRecord s.ts s.crc s.r).take c ++ zeros 0)).length + 1 - good.length
+        = ((encodeAll good ++ ((encodeRecord s.ts s.crc s.r).take c ++ zeros 0)).length - good.length) + 1 := by
+      simp only [List.length_append]; omega
+    rw [hf, scanLoop_short stepOK_live _ _ _ _ (by simp only [List.length_append] at hq ⊢; omega)]
+    have hb := encLen_bounds s.r hs.1
+    have hc : ¬ (18 + (bodyOf s.r).length ≤ c) := by
+      simp only [List.length_append, List.length_take, encodeRecord_length _ _ _ hs.1, zeros_length] at hq
+      omega
+    simp [hc]
+  · have hf : (encodeAll good ++ ((encodeRecord s.ts s.crc s.r).take c ++ zeros 0)).length + 1 - good.length
+        = ((encodeAll good ++ ((encodeRecord s.ts s.crc s.r).take c ++ zeros 0)).length - good.length - 1) + 2 := by
+      simp only [List.length_append] at hq ⊢; omega
+    rw [hf]
+    rcases scanLoop_torn (encodeAll good) s hs c 0 _ (fun h => absurd h (Nat.lt_irrefl 0)) (good.map (·.r)) with
+      ⟨hc, o, h⟩ | ⟨hc, o, h⟩
+    · rw [h]
+      have : ¬ (18 + (bodyOf s.r).length ≤ c) := by omega
+      simp [this]
+    · rw [h]
+      have : 18 + (bodyOf s.r).length ≤ c := by omega
+      simp [this]
+
+/-- **scan_ignores_ts**: the time stamps of the heads never influence the scan. -/
+theorem scan_ignores_ts (ss ss' : List Stamped) (h : ∀ s ∈ ss, Sealed s) (h' : ∀ s ∈ ss', Sealed s)
+    (hsame : ss.map (·.r) = ss'.map (·.r)) :
+    (scan (encodeAll ss)).recs = (scan (encodeAll ss')).recs ∧
+      (scan (encodeAll ss)).stop = (scan (encodeAll ss')).stop := by
+  rw [scan_encode ss h, scan_encode ss' h']
+  exact ⟨hsame, rfl⟩
+
+/-- **recoverBytes_torn**: byte level and record level together, current code. A crash during the
+    append (any cut) always lets start-up complete, and the store is exactly the record-level crash
+    state `appending j` replayed: the old records, plus the record in flight iff its body is complete. -/
+theorem recoverBytes_torn (kv : Store) (good : List Stamped) (s : Stamped) (c : Nat)
+    (hg : ∀ x ∈ good, Sealed x) (hs : Sealed s) :
+    recoverBytes kv (encodeAll good ++ (encodeRecord s.ts s.crc s.r).take c)
+      = some (kv.replay (good.map (·.r) ++ (if 18 + (bodyOf s.r).length ≤ c then [s.r] else []))) := by
+  obtain ⟨h1, h2⟩ := scan_torn_total_prefix good s c hg hs
+  unfold recoverBytes recoverWith
+  rw [h1, h2]
 
 /-! ## byte level — the reader BEFORE the fix (`scanLegacy`): partial theorems and refutations -/
 
@@ -78,7 +199,7 @@ theorem scanLegacy_ignores_stamp (ss ss' : List Stamped) (h : ∀ s ∈ ss, WF s
 /-- **scanLegacy_no_fuel**: the fuel of the loop model never runs out: `scan` always ends in EOF, in an
     error, or (aligned length wrapped to 0 — impossible for `FileUtilsEncode` output) in the Go loop's
     own non-termination. -/
-theorem scanLegacy_no_fuel (file : Bytes) : (scan file).stop ≠ .fuel :=
+theorem scanLegacy_no_fuel (file : Bytes) : (scanLegacy file).stop ≠ .fuel :=
   scanLoop_no_fuel stepOK_legacy _ _ _ _ (by omega)
 
 /-- cut inside (or exactly after) the 18-byte head: the torn record is dropped, the scan ends with EOF. -/
@@ -264,6 +385,20 @@ theorem scanLegacy_torn_total_iff (good : List Stamped) (s : Stamped) (c : Nat)
 def witness : Stamped := ⟨1600000000, crc16 (bodyOf ⟨4, [1], [0xAA, 0xBB, 0xCC]⟩), ⟨4, [1], [0xAA, 0xBB, 0xCC]⟩⟩
 
 example : WF witness.r := by decide
+set_option maxRecDepth 16384 in
+/-- non-vacuity of the hypotheses of `scan_torn_total`: the witness is a sealed record and the real
+    CRC-16 detects every zero-filled cut of it -/
+example : Sealed witness ∧ CrcDetects witness.r := by decide
+
+/-- the three witnesses of the refutations below, on the CURRENT reader: end of the log, nothing
+    delivered, no error -/
+theorem scan_torn_witness_now_ok :
+    scan ((encodeRecord witness.ts witness.crc witness.r).take 22) = ⟨.eof, 0, []⟩ ∧
+    scan ((encodeRecord witness.ts witness.crc witness.r).take 19) = ⟨.eof, 0, []⟩ := by decide
+
+set_option maxRecDepth 16384 in
+theorem scan_torn_witness_zero_tail_now_ok :
+    scan ((encodeRecord witness.ts witness.crc witness.r).take 5 ++ zeros 251) = ⟨.eof, 0, []⟩ := by decide
 example : (encodeRecord witness.ts witness.crc witness.r).length = 256 := by
   rw [encodeRecord_length _ _ _ (by decide)]; decide
 
